@@ -323,3 +323,28 @@ PROPS["C20"] = dict(
                  record_args={"quick": ["-n", 8, "-reps", 3, "-goroutines", 16, "-calls", 100], "thorough": ["-n", 200, "-reps", 3, "-goroutines", 16, "-calls", 1500]},
                  shards={"quick": 4, "thorough": 16})],
 )
+
+
+# ---- coverage added after the mutation rounds (DESIGN section 10), appended to the level texts ----
+_ADDED = {
+    "C01": " Also: preset tied pools of 20..32 values with every split (mid stage); samples at and just over both exact limits; the numeric value of the normal approximation in the trace direction (exact z^2, Phi by the harness, small lower tails to 2^-29 relative).",
+    "C02": " Also: preset tied pools of 20..32 values with every split; untied pools (38,38)..(50,50) as q-binomials in BigInt; CDF just below every grid point, far outside the range up to MaxFloat64 and the infinities; one tie-vector buffer reused for successive distributions.",
+    "C03": " Also: limit configurations with the ties limit above the no-ties limit; in the trace direction the normal approximation's P is decided numerically (exact z^2 from the integers, Phi evaluated by the harness at the logged z; 2^-29 relative on the lower-tail path, 2^-40 absolute elsewhere).",
+    "C05": " Also: a dense walk over V (eighths to 1000, integers to 10^4) for PDF and CDF; arguments out to MaxFloat64 and the infinities (limits, monotonicity); NormalDist.InvCDF NaN at every distance outside [0,1].",
+    "C06": " Also: a size walk N = 21..260 (thorough 1000) carrying Pascal rows in the TLA+ state - Binomial(N,1/2), Hyp(N,7,N/2), Hyp(N,N-7,N/3+3) and for even N the central Hyp(N,N/2,N/2); arguments far outside the support up to the infinities.",
+    "C07": " Also: 'returns exactly that method' at y = 0, 1, outside and NaN (own-method, DeltaDist, NormalDist); levels just outside [0,1] down to subnormals; Kolmogorov distance of stats.Rand for the built-in continuous distributions (non-integral V).",
+    "C08": " Also: decimal (inexact) parameters; the float-by-float neighbourhood of the symmetry switch (a+1)/(a+b+2); x within a float spacing of 0 and 1 against closed forms; library panics and runtime crashes are verdicts.",
+    "C09": " Also: vector lengths to 200 (thorough every length to 260, 511..513, 1000..1025), one vectorized function reused on equal-length inputs; in-place Poke events in recorded histories.",
+    "C10": " Also: tolerance-free order clauses (bracket, exact ties, bounds, monotone in q) under monotone non-affine maps onto values with inexact mantissas; in-place Poke events between queries.",
+    "C11": " Also: the last sizes of the exact branch (29, 30) in every tier; histories visited in ascending, descending and shuffled order of n; the reported Confidence (18 digits) never below c for proper sub-ranges.",
+    "C13": " Trace tolerances follow the Welford/Chan error bounds (2^-42 of max|x| for the mean, 2^-36 relative + 2^-42 max|x| * range for the variance), with profiles at a common offset 2^26 times the spread.",
+    "C14": " Also: values 1e-10 of a bin below and above every edge, 1e300 and the infinities as value codes of the model; the floats next to both ends of the range probed on every shape; negative values in logarithmic histograms.",
+    "C15": " Also: earlier results re-read after later fits; one LOESS smoother queried in descending / zig-zag order against freshly built ones.",
+    "C16": " Also: Linear domains with |Min| / width up to 2^38; the clamp law at 1e-11..1e-15 of the width from both ends; Unmap(Map(x)) of Linear scales to a few ulps of |x|+|Min|+|Max|.",
+    "C17": " Also: logarithmic domains of several decades below 1 ending on a power (bases 3 and 10 in the quick tier).",
+    "C18": " Also: SubgraphRemove requests that remove nodes only; attribute slices handed to Dot as prefixes of one shared table.",
+    "C19": " Also: the Dom clause itself (child lists invert IDom, each child once) in the replay and on recorded random graphs to 40 nodes.",
+    "C20": " Also: quantile closures shared by all goroutines, weights of extreme magnitude, 3000-node traversals, 40000-element sums, and an entry that evaluates equal values in a refilled buffer and in a fresh slice alternately.",
+}
+for _k, _v in _ADDED.items():
+    PROPS[_k]["level_text"] += _v
